@@ -105,7 +105,10 @@ def build_strategy(gate: specgen.Gate):
                 req = []
             if disc != "none":
                 val = vn if disc == "implicit" else vn.lower() + "_v"
-                props["kind"] = {"type": "string", "enum": [val]}
+                vals = [val]
+                if disc in ("explicit", "partial") and draw(st.integers(0, 2)) == 0:
+                    vals = draw(st.permutations([val, val + "2", "legacy_" + val]))[: draw(st.integers(2, 3))]  # several values -> one variant
+                props["kind"] = {"type": "string", "enum": list(vals)}
                 req = ["kind"] + [r for r in req if r != "kind"]
             node = {"type": "object", "properties": props}
             if req:
@@ -119,7 +122,9 @@ def build_strategy(gate: specgen.Gate):
         if disc != "none":
             U["discriminator"] = {"propertyName": "kind"}
             if disc in ("explicit", "partial"):
-                mapping = {schemas[vn]["properties"]["kind"]["enum"][0]: f"#/components/schemas/{vn}" for vn in names}
+                pairs = [(v, vn) for vn in names for v in schemas[vn]["properties"]["kind"]["enum"]]
+                pairs = draw(st.permutations(pairs))
+                mapping = {v: f"#/components/schemas/{vn}" for v, vn in pairs}
                 if disc == "partial" and len(mapping) > 1:
                     mapping.pop(sorted(mapping)[0])
                 U["discriminator"]["mapping"] = mapping
